@@ -46,6 +46,16 @@ theorem sum_Icc_ext_filter [AddCommMonoid K] (a b c d : Int) (f : Int → K) :
   simp only [mem_Icc, mem_filter]
   omega
 
+theorem sum_Icc_sub [AddCommMonoid K] (a b lo' hi' : Int) (P : Int → Prop) [DecidablePred P] (f : Int → K)
+    (h : ∀ j, (lo' ≤ j ∧ j ≤ hi') ↔ (a ≤ j ∧ j ≤ b ∧ P j)) :
+    ∑ j ∈ Icc lo' hi', f j = ∑ j ∈ Icc a b, if P j then f j else 0 := by
+  rw [← Finset.sum_filter]
+  congr 1
+  ext j
+  simp only [mem_Icc, mem_filter]
+  rw [h j]
+  tauto
+
 end
 
 section ring
@@ -61,6 +71,190 @@ theorem conv1dZeroAt_eq (jmin jmax : Int) (k : Int → K) (inMin inMax : Int) (x
   by_cases h : i - inMax ≤ j ∧ j ≤ i - inMin
   · rw [if_pos h, if_pos (by omega)]
   · rw [if_neg h, if_neg (by omega), mul_zero]
+
+/-- **conv_index_ranges**, constant boundary condition (non-empty input): the three loops sharing `j` compute the
+    convolution with the input extended by its nearest element -/
+theorem conv1dConstAt_eq (jmin jmax : Int) (k : Int → K) (inMin inMax : Int) (x : Int → K) (i : Int)
+    (hin : inMin ≤ inMax) :
+    conv1dConstAt jmin jmax k inMin inMax x i = ∑ j ∈ Icc jmin jmax, k j * x (clamp inMin inMax (i - j)) := by
+  unfold conv1dConstAt
+  simp only [sumFromTo_eq, zero_add]
+  rw [sum_Icc_sub jmin jmax jmin (min (jmax + 1) (i - inMax) - 1) (fun j => j < i - inMax) _ (by intro j; omega),
+      sum_Icc_sub jmin jmax (max jmin (min (jmax + 1) (i - inMax))) (min jmax (i - inMin))
+        (fun j => i - inMax ≤ j ∧ j ≤ i - inMin) _ (by intro j; omega),
+      sum_Icc_sub jmin jmax (max (max jmin (min (jmax + 1) (i - inMax))) (min jmax (i - inMin) + 1)) jmax
+        (fun j => i - inMin < j) _ (by intro j; omega),
+      ← Finset.sum_add_distrib, ← Finset.sum_add_distrib]
+  refine Finset.sum_congr rfl fun j _ => ?_
+  have hc : ∀ m, clamp inMin inMax (i - j) = m → x m = x (clamp inMin inMax (i - j)) := fun m h => by rw [h]
+  by_cases h1 : j < i - inMax
+  · rw [if_pos h1, if_neg (by omega), if_neg (by omega), add_zero, add_zero, hc inMax (by unfold clamp; omega)]
+  · by_cases h2 : j ≤ i - inMin
+    · rw [if_neg h1, if_pos (by omega), if_neg (by omega), add_zero, zero_add, hc (i - j) (by unfold clamp; omega)]
+    · rw [if_neg h1, if_neg (by omega), if_pos (by omega), zero_add, zero_add, hc inMin (by unfold clamp; omega)]
+
+/-- the `is_trivial()` branch is the convolution with the unit impulse at index 0 (zero / nearest-element extension) -/
+theorem conv1dTrivialAt_zero (inMin inMax : Int) (x : Int → K) (i : Int) :
+    conv1dTrivialAt .zero inMin inMax x i = ext inMin inMax x i := by
+  simp only [conv1dTrivialAt, ext]
+  split_ifs <;> first | rfl | omega
+
+theorem conv1dTrivialAt_constant (inMin inMax : Int) (x : Int → K) (i : Int) (hin : inMin ≤ inMax) :
+    conv1dTrivialAt .constant inMin inMax x i = x (clamp inMin inMax i) := by
+  simp only [conv1dTrivialAt, clamp]
+  split_ifs <;> first | (congr 1; omega) | omega
+
+/-- **conv_index_ranges**, symmetric-kernel variant: the three loops sharing `j` compute the convolution with the
+    symmetrised kernel `k_{|j|}`, zero extension.  (`i` inside the input range, as in `do_it`'s outer loop.) -/
+theorem convSymAt_eq (jmax : Int) (k : Int → K) (inMin inMax : Int) (x : Int → K) (i : Int)
+    (hj : 0 ≤ jmax) (hi : inMin ≤ i ∧ i ≤ inMax) :
+    convSymAt jmax k inMin inMax x i = ∑ j ∈ Icc (-jmax) jmax, k |j| * ext inMin inMax x (i - j) := by
+  unfold convSymAt
+  simp only [sumFromTo_eq]
+  -- right-hand side: split into j = 0, j > 0, j < 0 and fold the negative part onto 1..jmax
+  have hsplit : ∑ j ∈ Icc (-jmax) jmax, k |j| * ext inMin inMax x (i - j)
+      = k 0 * x i + ∑ j ∈ Icc 1 jmax, (k j * ext inMin inMax x (i - j) + k j * ext inMin inMax x (i + j)) := by
+    have h0 : Icc (-jmax) jmax = (Icc 1 jmax).image (fun j => -j) ∪ ({0} ∪ Icc 1 jmax) := by
+      ext j
+      simp only [mem_Icc, mem_union, mem_image, mem_singleton]
+      constructor
+      · intro h
+        by_cases hneg : j < 0
+        · exact Or.inl ⟨-j, by omega, by omega⟩
+        · by_cases hz : j = 0
+          · exact Or.inr (Or.inl hz)
+          · exact Or.inr (Or.inr (by omega))
+      · rintro (⟨a, ha, rfl⟩ | h | h) <;> omega
+    have hd1 : Disjoint ((Icc 1 jmax).image (fun j => -j)) ({0} ∪ Icc 1 jmax) := by
+      rw [Finset.disjoint_left]
+      intro a ha hb
+      simp only [mem_image, mem_Icc, mem_union, mem_singleton] at ha hb
+      obtain ⟨b, hb', rfl⟩ := ha
+      omega
+    have hd2 : Disjoint ({0} : Finset Int) (Icc 1 jmax) := by
+      rw [Finset.disjoint_left]; intro a ha hb; simp only [mem_singleton, mem_Icc] at ha hb; omega
+    have hinj : Set.InjOn (fun j : Int => -j) ↑(Icc 1 jmax) := by
+      intro a _ b _ hab; simpa using hab
+    rw [h0, Finset.sum_union hd1, Finset.sum_union hd2, Finset.sum_image hinj, Finset.sum_singleton, Finset.sum_add_distrib]
+    have e0 : ext inMin inMax x (i - 0) = x i := by unfold ext; rw [if_pos (by omega)]; simp
+    rw [abs_zero, e0]
+    have e1 : ∑ j ∈ Icc 1 jmax, k |(-j)| * ext inMin inMax x (i - -j) = ∑ j ∈ Icc 1 jmax, k j * ext inMin inMax x (i + j) := by
+      refine Finset.sum_congr rfl fun j hjm => ?_
+      rw [mem_Icc] at hjm
+      rw [abs_neg, abs_of_nonneg (by omega), sub_neg_eq_add]
+    have e2 : ∑ j ∈ Icc 1 jmax, k |j| * ext inMin inMax x (i - j) = ∑ j ∈ Icc 1 jmax, k j * ext inMin inMax x (i - j) := by
+      refine Finset.sum_congr rfl fun j hjm => ?_
+      rw [mem_Icc] at hjm
+      rw [abs_of_nonneg (by omega)]
+    rw [e1, e2]
+    ring
+  rw [hsplit]
+  rw [sum_Icc_sub 1 jmax 1 (min jmax (min (inMax - i) (i - inMin))) (fun j => j ≤ inMax - i ∧ j ≤ i - inMin) _ (by intro j; omega),
+      sum_Icc_sub 1 jmax (max 1 (min jmax (min (inMax - i) (i - inMin)) + 1)) (min jmax (inMax - i))
+        (fun j => ¬ (j ≤ inMax - i ∧ j ≤ i - inMin) ∧ j ≤ inMax - i) _ (by intro j; omega),
+      sum_Icc_sub 1 jmax (max (max 1 (min jmax (min (inMax - i) (i - inMin)) + 1)) (min jmax (inMax - i) + 1)) (min jmax (i - inMin))
+        (fun j => ¬ (j ≤ inMax - i ∧ j ≤ i - inMin) ∧ ¬ (j ≤ inMax - i) ∧ j ≤ i - inMin) _ (by intro j; omega),
+      add_assoc, add_assoc, ← Finset.sum_add_distrib, ← Finset.sum_add_distrib]
+  congr 1
+  refine Finset.sum_congr rfl fun j hjm => ?_
+  rw [mem_Icc] at hjm
+  unfold ext
+  by_cases ha : j ≤ inMax - i <;> by_cases hb : j ≤ i - inMin
+  · rw [if_pos ⟨ha, hb⟩, if_neg (by tauto), if_neg (by tauto), if_pos (by omega), if_pos (by omega)]; ring
+  · rw [if_neg (by tauto), if_pos (by tauto), if_neg (by tauto), if_neg (by omega), if_pos (by omega)]; ring
+  · rw [if_neg (by tauto), if_neg (by tauto), if_pos (by tauto), if_pos (by omega), if_neg (by omega)]; ring
+  · rw [if_neg (by tauto), if_neg (by tauto), if_neg (by tauto), if_neg (by omega), if_neg (by omega)]; ring
+
+/-- zero extension in two and three dimensions -/
+def ext2 (r0 r1 : R) (x : Int → Int → K) (a b : Int) : K :=
+  if (r0.lo ≤ a ∧ a ≤ r0.hi) ∧ (r1.lo ≤ b ∧ b ≤ r1.hi) then x a b else 0
+def ext3 (r0 r1 r2 : R) (x : Int → Int → Int → K) (a b c : Int) : K :=
+  if (r0.lo ≤ a ∧ a ≤ r0.hi) ∧ (r1.lo ≤ b ∧ b ≤ r1.hi) ∧ (r2.lo ≤ c ∧ c ≤ r2.hi) then x a b c else 0
+
+/-- **conv_index_ranges**, 2-D -/
+theorem conv2dAt_eq (kr0 kr1 : R) (k : Int → Int → K) (ir0 ir1 : R) (x : Int → Int → K) (y xx : Int) :
+    conv2dAt kr0 kr1 k ir0 ir1 x y xx =
+      ∑ j ∈ Icc kr0.lo kr0.hi, ∑ i ∈ Icc kr1.lo kr1.hi, k j i * ext2 ir0 ir1 x (y - j) (xx - i) := by
+  unfold conv2dAt
+  simp only [sumFromTo_eq]
+  rw [loopFromTo_add, zero_add, sum_Icc_ext_filter]
+  refine Finset.sum_congr rfl fun j _ => ?_
+  rw [sum_Icc_ext_filter]
+  by_cases hj : y - ir0.hi ≤ j ∧ j ≤ y - ir0.lo
+  · rw [if_pos hj]
+    refine Finset.sum_congr rfl fun i _ => ?_
+    unfold ext2
+    by_cases hi : xx - ir1.hi ≤ i ∧ i ≤ xx - ir1.lo
+    · rw [if_pos hi, if_pos (by omega)]
+    · rw [if_neg hi, if_neg (by omega), mul_zero]
+  · rw [if_neg hj]
+    symm
+    refine Finset.sum_eq_zero fun i _ => ?_
+    unfold ext2
+    rw [if_neg (by omega), mul_zero]
+
+/-- **conv_index_ranges**, 3-D -/
+theorem conv3dAt_eq (kr0 kr1 kr2 : R) (k : Int → Int → Int → K) (ir0 ir1 ir2 : R) (x : Int → Int → Int → K) (z y xx : Int) :
+    conv3dAt kr0 kr1 kr2 k ir0 ir1 ir2 x z y xx =
+      ∑ kk ∈ Icc kr0.lo kr0.hi, ∑ j ∈ Icc kr1.lo kr1.hi, ∑ i ∈ Icc kr2.lo kr2.hi,
+        k kk j i * ext3 ir0 ir1 ir2 x (z - kk) (y - j) (xx - i) := by
+  unfold conv3dAt
+  simp only [sumFromTo_eq]
+  simp only [loopFromTo_add, zero_add]
+  rw [sum_Icc_ext_filter]
+  refine Finset.sum_congr rfl fun kk _ => ?_
+  by_cases hk : z - ir0.hi ≤ kk ∧ kk ≤ z - ir0.lo
+  · rw [if_pos hk, sum_Icc_ext_filter]
+    refine Finset.sum_congr rfl fun j _ => ?_
+    by_cases hj : y - ir1.hi ≤ j ∧ j ≤ y - ir1.lo
+    · rw [if_pos hj, sum_Icc_ext_filter]
+      refine Finset.sum_congr rfl fun i _ => ?_
+      unfold ext3
+      by_cases hi : xx - ir2.hi ≤ i ∧ i ≤ xx - ir2.lo
+      · rw [if_pos hi, if_pos (by omega)]
+      · rw [if_neg hi, if_neg (by omega), mul_zero]
+    · rw [if_neg hj]
+      symm
+      refine Finset.sum_eq_zero fun i _ => ?_
+      unfold ext3
+      rw [if_neg (by omega), mul_zero]
+  · rw [if_neg hk]
+    symm
+    refine Finset.sum_eq_zero fun j _ => Finset.sum_eq_zero fun i _ => ?_
+    unfold ext3
+    rw [if_neg (by omega), mul_zero]
+
+/-- the loops never read outside the index ranges of kernel and input: the result only depends on the kernel on
+    `jmin..jmax` and on the input on `inMin..inMax` -/
+theorem conv1dZeroAt_congr (jmin jmax : Int) (k k' : Int → K) (inMin inMax : Int) (x x' : Int → K) (i : Int)
+    (hk : ∀ j, jmin ≤ j → j ≤ jmax → k j = k' j) (hx : ∀ m, inMin ≤ m → m ≤ inMax → x m = x' m) :
+    conv1dZeroAt jmin jmax k inMin inMax x i = conv1dZeroAt jmin jmax k' inMin inMax x' i := by
+  rw [conv1dZeroAt_eq, conv1dZeroAt_eq]
+  refine Finset.sum_congr rfl fun j hj => ?_
+  rw [mem_Icc] at hj
+  rw [hk j hj.1 hj.2]
+  unfold ext
+  split_ifs with h
+  · rw [hx _ h.1 h.2]
+  · rfl
+
+/-- **unit_sum_preserves_mean**: where the data are equal to `c` on the whole kernel support around `i`
+    (and that support lies inside the input range) the output is `c` times the kernel sum — `c` itself for kernels
+    summing to one -/
+theorem conv1dZeroAt_const_on_support (jmin jmax : Int) (k : Int → K) (inMin inMax : Int) (x : Int → K) (i : Int) (c : K)
+    (hc : ∀ j, jmin ≤ j → j ≤ jmax → (inMin ≤ i - j ∧ i - j ≤ inMax) ∧ x (i - j) = c) :
+    conv1dZeroAt jmin jmax k inMin inMax x i = (∑ j ∈ Icc jmin jmax, k j) * c := by
+  rw [conv1dZeroAt_eq, Finset.sum_mul]
+  refine Finset.sum_congr rfl fun j hj => ?_
+  rw [mem_Icc] at hj
+  unfold ext
+  rw [if_pos (hc j hj.1 hj.2).1, (hc j hj.1 hj.2).2]
+
+theorem conv1dZeroAt_unit_sum (jmin jmax : Int) (k : Int → K) (inMin inMax : Int) (x : Int → K) (i : Int) (c : K)
+    (hsum : ∑ j ∈ Icc jmin jmax, k j = 1)
+    (hc : ∀ j, jmin ≤ j → j ≤ jmax → (inMin ≤ i - j ∧ i - j ≤ inMax) ∧ x (i - j) = c) :
+    conv1dZeroAt jmin jmax k inMin inMax x i = c := by
+  rw [conv1dZeroAt_const_on_support jmin jmax k inMin inMax x i c hc, hsum, one_mul]
 
 end ring
 end StirVerif.C19
